@@ -572,6 +572,13 @@ func (f *Frame) applyContract(con *Contract, key string, sig *types.Signature, a
 	} else {
 		for _, m := range con.Modifies {
 			k := vc.P.modKey(m)
+			if _, ok := vc.cellSort[k]; !ok {
+				// materialise the cell (sort derived from the declaration) so that the unchanged value on other
+				// paths and the havocked value here are related by the join
+				if srt := vc.sortOfCellKey(k); srt != "" {
+					f.getCell(f.cur, k, srt)
+				}
+			}
 			if s, ok := vc.cellSort[k]; ok {
 				f.cur.cells[k] = vc.fresh(k+"@call", s)
 			} else {
@@ -798,4 +805,35 @@ func (f *Frame) constLenSlice(v ssa.Value) (int, bool) {
 		return 0, true
 	}
 	return 0, false
+}
+
+// sortOfCellKey derives the sort of a heap / ghost cell from its key ("H:pkg.T.f", "ghost:x").
+func (vc *VC) sortOfCellKey(k string) Sort {
+	if strings.HasPrefix(k, "ghost:") {
+		return vc.P.ghosts[k[len("ghost:"):]]
+	}
+	if !strings.HasPrefix(k, "H:") {
+		return ""
+	}
+	rest := k[2:]
+	i := strings.LastIndex(rest, ".")
+	if i < 0 {
+		return ""
+	}
+	tn, fn := rest[:i], rest[i+1:]
+	for _, p := range vc.P.allTypesPkgs() {
+		if !strings.HasPrefix(tn, p.Name()+".") {
+			continue
+		}
+		if o, ok := p.Scope().Lookup(tn[len(p.Name())+1:]).(*types.TypeName); ok {
+			if st, ok := o.Type().Underlying().(*types.Struct); ok {
+				for j := 0; j < st.NumFields(); j++ {
+					if st.Field(j).Name() == fn {
+						return "(Array Int " + vc.sortOf(st.Field(j).Type()) + ")"
+					}
+				}
+			}
+		}
+	}
+	return ""
 }
